@@ -21,6 +21,8 @@ repaired in /repo, see DESIGN.md section 12, #19, #21, #22): the statements belo
 proved of the code as it was.
 -/
 import DafRel.Lemmas.Backtrack
+import DafRel.Bridge.Ops
+import DafRel.Bridge.RelOps
 
 namespace DafRel.Props.C03
 
@@ -50,6 +52,18 @@ theorem same_as_plain_application (σ : Leaves) (st : Store) (fuel : Nat) (o : U
   have a := applyOp_sound σ st fuel o t opts res hkt hpk hwf htr hnd h
   have b := applyOp_sound σ st fuel o t {} plain hkt (fun p hp => by cases hp) hwf htr hnd hp
   exact ⟨by rw [a.sem_eq, b.sem_eq], fun x => (a.cols x).trans (b.cols x).symm⟩
+
+/-- Tie to the source: the `commute` methods that `backtrack_unary` consults - including
+`PartialJoin.commute`, whose soundness is validated rather than proved - are the current source's
+(translators T-e / T-f). -/
+theorem bridge_commute_used_by_backtracking (p : PJoin) (cur : UOp) (tcols ccols : Cols) :
+    Gen.PartialJoin_commute p cur tcols ccols = p.commute cur tcols ccols ∧
+    Gen.PartialJoin_columns_required p = p.columnsRequired ∧
+    (∀ c, Gen.Projection_commute c cur tcols ccols = (UOp.proj c).commute cur tcols ccols) ∧
+    (∀ tag e, Gen.Calculation_commute tag e cur tcols ccols = (UOp.calc tag e).commute cur tcols ccols) :=
+  ⟨Bridge.PartialJoin_commute_eq p cur tcols ccols, Bridge.PartialJoin_columns_required_eq p,
+   fun c => Bridge.Projection_commute_eq c cur tcols ccols,
+   fun tag e => Bridge.Calculation_commute_eq tag e cur tcols ccols⟩
 
 /-! ### Non-vacuity -/
 
